@@ -359,6 +359,15 @@ pub fn replay_prefix<S: Spec>(spec: &S, steps: &[HistStep]) -> Result<Node<S::Mo
     Ok(node)
 }
 
+/// Resident set size of this process in GB (0 if unknown).
+pub fn rss_gb() -> f64 {
+    std::fs::read_to_string("/proc/self/statm")
+        .ok()
+        .and_then(|s| s.split_whitespace().nth(1).and_then(|p| p.parse::<f64>().ok()))
+        .map(|pages| pages * 4096.0 / 1e9)
+        .unwrap_or(0.0)
+}
+
 pub fn explore<S: Spec>(spec: &S, lim: &Limits) -> (Stats, Vec<Found>) {
     let t0 = Instant::now();
     let policy = spec.timer_policy();
@@ -420,11 +429,23 @@ pub fn explore<S: Spec>(spec: &S, lim: &Limits) -> (Stats, Vec<Found>) {
         }
         let level_t0 = transitions.load(Ordering::Relaxed);
         let sleeps = spec.sleeps();
+        let over = std::sync::atomic::AtomicBool::new(false);
+        let guard_tick = AtomicU64::new(1);
+        let rss_cap: f64 = std::env::var("VERIF_RSS_GB").ok().and_then(|s| s.parse().ok()).unwrap_or(14.0);
         let results: Vec<(Vec<Node<S::Mon>>, Vec<Found>)> = frontier
             .par_iter()
             .map(|node| {
                 let mut outs = Vec::new();
                 let mut found = Vec::new();
+                // memory / wall guards inside the level: a level that is cut
+                // short is reported as not covered
+                if over.load(Ordering::Relaxed) {
+                    return (outs, found);
+                }
+                if guard_tick.fetch_add(1, Ordering::Relaxed) % 512 == 0 && (rss_gb() > rss_cap || t0.elapsed().as_secs_f64() > lim.max_wall_s * 1.5) {
+                    over.store(true, Ordering::Relaxed);
+                    return (outs, found);
+                }
                 if !spec.expand(node) {
                     return (outs, found);
                 }
@@ -459,6 +480,15 @@ pub fn explore<S: Spec>(spec: &S, lim: &Limits) -> (Stats, Vec<Found>) {
             found_all.extend(fs);
         }
         let level_tr = transitions.load(Ordering::Relaxed) - level_t0;
+        if over.load(Ordering::Relaxed) && found_all.is_empty() {
+            stats.capped = Some(format!(
+                "memory cap ({rss_cap:.0} GB resident) or wall cap hit while expanding depth {}: that level is NOT covered; fully covered depth = {}",
+                depth + 1,
+                depth
+            ));
+            stats.per_depth.push((depth + 1, next.len() as u64, level_tr));
+            break;
+        }
         stats.per_depth.push((depth + 1, next.len() as u64, level_tr));
         stats.depth_completed = depth + 1;
         // a few written-out histories for the evidence file
@@ -483,6 +513,16 @@ pub fn explore<S: Spec>(spec: &S, lim: &Limits) -> (Stats, Vec<Found>) {
     }
     if frontier.is_empty() && pending_seeds.is_empty() && found_all.is_empty() {
         stats.exhausted = true;
+    }
+    // give the frontier's memory back to the OS before the next exploration
+    // (the resident-size guard would otherwise see this one's leftovers)
+    drop(frontier);
+    drop(pending_seeds);
+    extern "C" {
+        fn malloc_trim(pad: usize) -> i32;
+    }
+    unsafe {
+        malloc_trim(0);
     }
     stats.states = states;
     stats.transitions = transitions.load(Ordering::Relaxed);
